@@ -529,6 +529,9 @@ class Exec:
         m = re.match(r'^([iu](?:8|16|32|64|128|size))::(MIN|MAX)$', txt)
         if m:
             return rng(m.group(1))[0 if m.group(2) == 'MIN' else 1]
+        m = re.match(r'^(?:(?:core|std)::num::<impl )?([iu](?:8|16|32|64|128|size))>?::BITS$', txt)
+        if m:
+            return INT_T[m.group(1)][0]
         m = re.match(r'^(?:core|std)::num::<impl ([iu](?:8|16|32|64|128|size))>::(MIN|MAX)$', txt)
         if m:
             return rng(m.group(1))[0 if m.group(2) == 'MIN' else 1]
@@ -870,6 +873,19 @@ class Exec:
                 return OR(a, b)
             if op == 'BitXor' and (isbool(a) and isbool(b)):
                 return NOT(IFF(a, b))
+            # shifts / masks by constants (two's complement): x >> k = floor(x / 2^k) (arithmetic for signed, logical for unsigned),
+            # x << k = wrap(x * 2^k), x & (2^k - 1) = x mod 2^k
+            if op == 'Shr' and isc(b) and 0 <= b < 128:
+                return (a >> b) if isc(a) else named('Int', f'(div {sm(a)} {1 << b})')
+            if op == 'Shl' and isc(b) and 0 <= b < 128:
+                ty = s.optype(ops[0], fn) or (dest_ty if dest_ty in INT_T else None)
+                if ty not in INT_T:
+                    raise Unsupported(f'untyped Shl in {fn.name}: {rv}')
+                return s.wrap(ARI('*', a, 1 << b), ty)
+            if op == 'BitAnd':
+                for x, mask in ((a, b), (b, a)):
+                    if isc(mask) and mask >= 0 and (mask & (mask + 1)) == 0:
+                        return (x & mask) if isc(x) else named('Int', f'(mod {sm(x)} {mask + 1})')
             raise Unsupported(f'binary op {op} on integers in {fn.name}: {rv}')
         m = re.match(r'^Not\((.*)\)$', rv)
         if m:
@@ -999,6 +1015,17 @@ class Exec:
             if not (isinstance(b, int) and b > 0):
                 raise Unsupported('div_euclid with non-constant divisor')
             return named('Int', f'(div {sm(a)} {sm(b)})')
+        if nm.endswith('>::unsigned_abs') and ty:
+            a = args[0]
+            return abs(a) if isc(a) else named('Int', f'(abs {sm(a)})')
+        if nm.endswith(('>::wrapping_add', '>::wrapping_sub', '>::wrapping_mul')) and ty:
+            return s.wrap(ARI({'add': '+', 'sub': '-', 'mul': '*'}[nm[-3:]], args[0], args[1]), ty)
+        if nm.endswith('>::checked_mul') and ty:
+            r = ARI('*', args[0], args[1])
+            return {'$d': ITE(inrange(r, ty), 1, 0, 'Int'), '$v': {'Some': [r]}}
+        if nm.endswith('>::abs_diff') and ty:
+            d = ARI('-', args[0], args[1])
+            return abs(d) if isc(d) else named('Int', f'(abs {sm(d)})')
         if nm.endswith('>::abs') and ty:
             a = args[0]
             r = abs(a) if isc(a) else named('Int', f'(abs {sm(a)})')
